@@ -98,9 +98,16 @@ func isUserFn(call *ssa.Call) bool {
 	case *ssa.Function, *ssa.Builtin, *ssa.MakeClosure:
 		return false
 	}
-	pv := valueProv(call.Call.Value, provEnv{})
+	v := call.Call.Value
+	// the callback handed to the goroutine's literal as an argument (go func(…, call func(i int), …) {...}(…, f, …))
+	if lp, isP := resolveVal(v).(*ssa.Parameter); isP {
+		if a := literalCallArg(lp); a != nil {
+			v = a
+		}
+	}
+	pv := valueProv(v, provEnv{})
 	_, isParam := pv.root.(*ssa.Parameter)
-	return isParam && len(pv.fields) <= 1 && (path(call.Call.Value) == "f" || strings.HasSuffix(path(call.Call.Value), ".f"))
+	return isParam && len(pv.fields) <= 1 && (path(v) == "f" || strings.HasSuffix(path(v), ".f"))
 }
 
 func ruleDoBarrier(c *Ctx, r *R) {
@@ -165,6 +172,14 @@ func ruleDoBarrier(c *Ctx, r *R) {
 			if d, ok := in.(*ssa.Defer); ok {
 				if cal := d.Call.StaticCallee(); cal != nil && fname(cal) == "Done" {
 					first = true
+				}
+				// defer done() with done the method value wg.Done the literal was started with
+				if lp, isP := resolveVal(d.Call.Value).(*ssa.Parameter); isP {
+					if a := literalCallArg(lp); a != nil {
+						if m, rv := funcAndReceiver(a); m != nil && rv != nil && fname(m) == "Done" && m.Signature.Recv() != nil && isNamedType(m.Signature.Recv().Type(), "sync", "WaitGroup") {
+							first = true
+						}
+					}
 				}
 				break
 			}
@@ -265,6 +280,12 @@ func ruleDoUniqueIndex(c *Ctx, r *R) {
 			addr := ac.Call.Args[0]
 			// the worker literal is built by a constructor that is handed the counter's address (newContextWorker(ctx, &x, n, f)):
 			// the parameter stands for the argument of the constructor's only call
+			if prm, isP := resolveVal(addr).(*ssa.Parameter); isP {
+				// ... or of the goroutine's literal itself, started with &x as an argument
+				if a := literalCallArg(prm); a != nil {
+					addr, chain = a, nil
+				}
+			}
 			if prm, isP := resolveVal(addr).(*ssa.Parameter); isP && prm.Parent() != nil && prm.Parent().Parent() == nil && !token.IsExported(prm.Parent().Name()) {
 				if sites := callCommonsOf(c, prm.Parent()); len(sites) == 1 {
 					for k, q := range prm.Parent().Params {
@@ -278,6 +299,29 @@ func ruleDoUniqueIndex(c *Ctx, r *R) {
 			if al, ok := ap.root.(*ssa.Alloc); ok && (rootFn(al.Parent()) == rootFn(fn) || rootFn(al.Parent()) == rootFn(im.api)) {
 				counter = &ap
 				return true
+			}
+			// the counter lives in a small constructor that returns the claiming function (claim := indexClaimer(n)): one
+			// counter per call of the constructor - which must therefore be called once, by the function that spawns the
+			// workers (not inside a worker: each would then count for itself)
+			if al, ok := ap.root.(*ssa.Alloc); ok {
+				ctor := rootFn(al.Parent())
+				if ctor.Parent() == nil && !token.IsExported(ctor.Name()) && rootFn(ctor).Pkg == rootFn(fn).Pkg {
+					sites := callSitesOf(c, ctor)
+					okSites := len(sites) > 0
+					for _, site := range sites {
+						if site.Parent() != fn && site.Parent() != im.api {
+							// another implementation's own call (Do and DoContext each make their claimer) is fine as long as
+							// it is not made from inside a function literal
+							if site.Parent().Parent() != nil {
+								okSites = false
+							}
+						}
+					}
+					if okSites {
+						counter = &ap
+						return true
+					}
+				}
 			}
 			return false
 		}
